@@ -34,6 +34,7 @@ type loneKey struct {
 	engine  string
 	variant int
 	slot    int
+	shape   int
 }
 
 type loneEntry struct {
@@ -68,7 +69,7 @@ func digest(results []string, o obs) (d [16]byte) {
 
 // runLone executes an op word on a lone instance in a FRESH world (own runtime, own compilation).
 func runLone(k loneKey, dirs *hostDirs, ops []int) ([]string, obs) {
-	w := newWorld(cfg{Engine: k.engine, RT: "one", Variants: []int{k.variant}, Policy: "eager"}, dirs, k.slot)
+	w := newWorld(cfg{Engine: k.engine, RT: "one", Variants: []int{k.variant}, Policy: "eager", Shape: k.shape}, dirs, k.slot)
 	defer w.close()
 	word := make([]step, len(ops))
 	for i, o := range ops {
@@ -153,10 +154,9 @@ func (t *loneTable) stdout(code, n int) string {
 // ---------------------------------------------------------------- explorer
 
 type explorer struct {
-	run       *fw.Run
-	dirs      *hostDirs
-	lone      map[loneKey]*loneTable
-	loneDepth int
+	run  *fw.Run
+	dirs *hostDirs
+	lone map[loneKey]*loneTable
 
 	words, steps, interleaved, instObs, worlds atomic.Int64
 	shards                                     int64
@@ -200,8 +200,8 @@ func (e *explorer) check(c cfg, word []step, r wordResult) bool {
 	for k, s := range word {
 		code[s.I] = code[s.I]*K + s.Op
 		cnt[s.I]++
-		if c.Shared && cnt[s.I] <= e.loneDepth {
-			t := e.lone[loneKey{c.Engine, c.Variants[s.I], 0}]
+		if c.Shared && cnt[s.I] <= c.RefDepth {
+			t := e.lone[loneKey{c.Engine, c.Variants[s.I], 0, c.shape()}]
 			if r.sharedOut[k] != t.byLen[cnt[s.I]][code[s.I]].chunk {
 				return false
 			}
@@ -214,14 +214,14 @@ func (e *explorer) check(c cfg, word []step, r wordResult) bool {
 			}
 			continue
 		}
-		if cnt[j] > e.loneDepth {
+		if cnt[j] > c.RefDepth {
 			continue // the single actor of a full-depth word: no reference of that length (see NOTES.md)
 		}
 		slot := j
 		if c.Shared {
 			slot = 0
 		}
-		t := e.lone[loneKey{c.Engine, c.Variants[j], slot}]
+		t := e.lone[loneKey{c.Engine, c.Variants[j], slot, c.shape()}]
 		if digest(r.results[j], r.final[j]) != t.byLen[cnt[j]][code[j]].dig {
 			return false
 		}
@@ -259,7 +259,7 @@ func (e *explorer) explain(c cfg, word []step, r wordResult) *mismatch {
 		if c.Shared {
 			slot = 0
 		}
-		k := loneKey{c.Engine, c.Variants[j], slot}
+		k := loneKey{c.Engine, c.Variants[j], slot, c.shape()}
 		lone[j].res, lone[j].o = runLone(k, e.dirs, proj[j])
 		prev := 0
 		for q := 1; q <= len(proj[j]); q++ {
@@ -391,14 +391,14 @@ func (e *explorer) repairLone(c cfg, word []step) (repaired bool) {
 		proj[s.I] = append(proj[s.I], s.Op)
 	}
 	for j := 0; j < n; j++ {
-		if len(proj[j]) > e.loneDepth {
+		if len(proj[j]) > c.RefDepth {
 			continue
 		}
 		slot := j
 		if c.Shared {
 			slot = 0
 		}
-		k := loneKey{c.Engine, c.Variants[j], slot}
+		k := loneKey{c.Engine, c.Variants[j], slot, c.shape()}
 		t := e.lone[k]
 		code := 0
 		for q, o := range proj[j] {
@@ -523,7 +523,7 @@ func (e *explorer) runShard(p plan, sh shard, sampleIt bool) (st shardStats) {
 			return
 		}
 		e.breathe()
-		if len(word) == p.depth && p.depth > e.loneDepth && singleActor(word) && p.c.Policy == "lazy" {
+		if len(word) == p.depth && p.depth > p.c.RefDepth && singleActor(word) && p.c.Policy == "lazy" {
 			return // identical to a lone run of a word longer than the reference table: nothing to compare
 		}
 		e.quiesce.RLock()
@@ -663,12 +663,12 @@ func allOps(withExit bool) []int {
 // judgeSeparate returns the first difference between (lone word in a fresh process state) and (the same lone
 // word after / while a disturbing instance in another runtime executed every letter).
 func judgeSeparate(sc separateCase, dirs *hostDirs) *mismatch {
-	k := loneKey{sc.Engine, 0, 0}
+	k := loneKey{sc.Engine, 0, 0, 1}
 	r1, o1 := runLone(k, dirs, sc.Ops)
 	var r2 []string
 	var o2 obs
 	if sc.DisturbOpen {
-		d := newWorld(cfg{Engine: sc.Engine, RT: "one", Variants: []int{0}, Policy: "eager"}, dirs, 1)
+		d := newWorld(cfg{Engine: sc.Engine, RT: "one", Variants: []int{0}, Policy: "eager", Shape: 1}, dirs, 1)
 		in := d.instantiate(0)
 		for _, o := range allOps(false) {
 			in.call(in.fn(o))
@@ -677,7 +677,7 @@ func judgeSeparate(sc separateCase, dirs *hostDirs) *mismatch {
 		in.mod.Close(ctx)
 		d.close()
 	} else {
-		runLone(loneKey{sc.Engine, 0, 1}, dirs, allOps(true))
+		runLone(loneKey{sc.Engine, 0, 1, 1}, dirs, allOps(true))
 		r2, o2 = runLone(k, dirs, sc.Ops)
 	}
 	for i := range r1 {
@@ -727,25 +727,25 @@ func (e *explorer) phase0() (cases int64, ok bool) {
 
 // memoryGuard bounds the resident set of the process. The workers allocate ~2 GiB/s of short-lived instance state
 // (64 KiB+ linear memories, sys contexts); on a loaded machine the concurrent collector falls behind and the heap
-// overshoots its goal by gigabytes. The guard samples VmRSS every 250 ms (it includes wazevo's mmap'ed code, which
+// overshoots its goal by gigabytes. The guard samples VmRSS every 100 ms (it includes wazevo's mmap'ed code, which
 // runtime.MemStats does not):
 //   - above throttleBytes the workers pause at their next word boundary while the guard forces a collection and
 //     returns the freed memory to the OS, then they resume;
 //   - if the process is still above guardBytes AFTER such a collection, live data is too large: the run stops
 //     cleanly (run.Capped("memory guard") => exhaustive:false, exit 0) instead of being killed by the kernel.
 const (
-	throttleBytes = 3 << 30
+	throttleBytes = 2560 << 20
 	guardBytes    = 6 << 30
 )
 
 func (e *explorer) memoryGuard() {
 	for n := 0; ; n++ {
-		time.Sleep(250 * time.Millisecond)
+		time.Sleep(100 * time.Millisecond)
 		r := rssBytes()
 		if r > e.peakRSS.Load() {
 			e.peakRSS.Store(r)
 		}
-		if os.Getenv("C11_MEMTRACE") != "" && n%8 == 0 {
+		if os.Getenv("C11_MEMTRACE") != "" && n%20 == 0 {
 			var ms runtime.MemStats
 			runtime.ReadMemStats(&ms)
 			fmt.Fprintf(os.Stderr, "mem: rss=%dMiB heapInuse=%dMiB heapSys=%dMiB heapReleased=%dMiB sys=%dMiB numGC=%d worldsClosed=%d throttles=%d\n",
@@ -787,9 +787,10 @@ func plans(thorough bool) []plan {
 		d, override = v, true
 	}
 	seen := map[string]bool{}
+	shape := 1
 	add := func(depth int, rt string, variants []int, policy string, shared bool) {
 		for _, eng := range []string{"compiler", "interpreter"} {
-			c := cfg{Engine: eng, RT: rt, Variants: variants, Policy: policy, Shared: shared}
+			c := cfg{Engine: eng, RT: rt, Variants: variants, Policy: policy, Shared: shared, Shape: shape}
 			if !seen[c.String()] {
 				seen[c.String()] = true
 				ps = append(ps, plan{c, depth})
@@ -801,7 +802,7 @@ func plans(thorough bool) []plan {
 	// run that hits its budget has covered every configuration before it deepens the primary one.
 	var primary []plan
 	for _, eng := range []string{"compiler", "interpreter"} {
-		c := cfg{Engine: eng, RT: "one", Variants: same2, Policy: "lazy"}
+		c := cfg{Engine: eng, RT: "one", Variants: same2, Policy: "lazy", Shape: 1}
 		seen[c.String()] = true
 		primary = append(primary, plan{c, d})
 	}
@@ -824,11 +825,13 @@ func plans(thorough bool) []plan {
 	}
 	for _, pol := range []string{"lazy", "eager", "eager-rev"} {
 		for _, vs := range [][]int{same2, same3, diff2} {
+			if pol == "eager-rev" && len(vs) == 3 {
+				continue // dropped in round 5 to pay for the module-shape dimension
+			}
 			add(s, "one", vs, pol, false)
 		}
 	}
 	add(s, "one", diff3, "lazy", false)
-	quickOnly(func() { add(s, "one", diff3, "eager", false) })
 	// two runtimes sharing a compilation cache
 	for _, rt := range []string{"cache-mem", "cache-dir2"} {
 		add(s, rt, same2, "lazy", false)
@@ -847,37 +850,56 @@ func plans(thorough bool) []plan {
 		add(s, "one", vs, "lazy", true)
 	}
 	add(s, "one", same2, "eager", true)
-	quickOnly(func() {
-		add(s, "one", same3, "eager", true)
-		add(s, "one", diff2, "eager", true)
-		add(s, "cache-dir2", same2, "lazy", true)
-	})
 	add(s, "cache-mem", same2, "lazy", true)
+	// module shapes 2..4 (only active data segments / only active element segments / no segments at all): the
+	// primary configuration, its eager twin and one cache configuration, at the secondary depth, with lone references
+	// one level shorter (see setRefDepths)
+	for shape = 2; shape <= numShapes; shape++ {
+		add(s, "one", same2, "lazy", false)
+		add(s, "one", same2, "eager", false)
+		add(s, "cache-mem", same2, "lazy", false)
+	}
+	shape = 1
 	return append(ps, primary...)
 }
 
-func neededLone(ps []plan) (keys []loneKey, depth int) {
-	seen := map[loneKey]bool{}
+// neededLone returns the lone reference tables to build and, for each, the word length up to which it is needed.
+func neededLone(ps []plan) (keys []loneKey, depth map[loneKey]int) {
+	depth = map[loneKey]int{}
 	for _, p := range ps {
-		if p.depth > depth {
-			depth = p.depth
-		}
 		for j, v := range p.c.Variants {
 			slot := j
 			if p.c.Shared {
 				slot = 0
 			}
-			k := loneKey{p.c.Engine, v, slot}
-			if !seen[k] {
-				seen[k] = true
+			k := loneKey{p.c.Engine, v, slot, p.c.shape()}
+			if _, ok := depth[k]; !ok {
 				keys = append(keys, k)
 			}
+			depth[k] = max(depth[k], min(p.c.RefDepth, p.depth))
 		}
 	}
 	sort.Slice(keys, func(a, b int) bool {
 		return fmt.Sprint(keys[a]) < fmt.Sprint(keys[b])
 	})
 	return
+}
+
+// setRefDepths: a configuration's lone references go up to (deepest plan of the run)-1 — projections of words in
+// which two instances act are at most depth-1 long — except for the module-shape configurations, which get
+// references up to their own depth-1 only (they exist to add the shape dimension cheaply).
+func setRefDepths(ps []plan) {
+	maxd := 0
+	for _, p := range ps {
+		maxd = max(maxd, p.depth)
+	}
+	for i := range ps {
+		if ps[i].c.shape() != 1 {
+			ps[i].c.RefDepth = ps[i].depth - 1
+		} else {
+			ps[i].c.RefDepth = maxd - 1
+		}
+	}
 }
 
 func main() {
@@ -889,14 +911,14 @@ func main() {
 	dirs := newHostDirs()
 	defer os.RemoveAll(dirs.root)
 	ps := plans(run.Thorough())
+	setRefDepths(ps)
 	if len(os.Args) > 2 && os.Args[2] == "count" {
 		// size of the word space per plan, by enumeration without execution (used for NOTES.md)
-		_, ld := neededLone(ps)
 		var tot int64
 		for _, p := range ps {
 			var n int64
 			p.each(nil, 0, p.depth, func(w []step) {
-				if !(len(w) == p.depth && p.depth > ld-1 && singleActor(w) && p.c.Policy == "lazy") {
+				if !(len(w) == p.depth && p.depth > p.c.RefDepth && singleActor(w) && p.c.Policy == "lazy") {
 					n++
 				}
 			})
@@ -915,9 +937,7 @@ func main() {
 		run.Finish(fw.Coverage{Evaluations: p0cases, DistinctNontriv: p0cases, States: p0cases, Transitions: p0cases, TracesValidated: p0cases,
 			Rule: "phase 0 only", Outcomes: e.outcomes.Map()}, nil)
 	}
-	keys, ld := neededLone(ps)
-	ld-- // projections of words in which two instances act are at most depth-1 long
-	e.loneDepth = ld
+	keys, refDepth := neededLone(ps)
 	debug.SetGCPercent(400)
 	debug.SetMemoryLimit(2 << 30) // soft: the collector works harder as the Go heap approaches it
 	go e.memoryGuard()
@@ -931,7 +951,7 @@ func main() {
 		return e.memStop.Load()
 	}
 	for _, k := range keys {
-		e.lone[k] = buildLone(abort, e.breathe, k, dirs, ld, &loneRuns)
+		e.lone[k] = buildLone(abort, e.breathe, k, dirs, refDepth[k], &loneRuns)
 	}
 	if abort() {
 		// incomplete reference tables must not be used
@@ -955,7 +975,7 @@ func main() {
 	}
 	bounds["alphabet_per_instance"] = opNames
 	bounds["plans"] = perPlan
-	bounds["lone_reference"] = map[string]any{"keys(engine,variant,slot)": len(keys), "max_word_length": ld, "fresh_world_runs": loneRuns.Load(), "wall_s": loneWall}
+	bounds["lone_reference"] = map[string]any{"keys(engine,variant,slot,shape)": len(keys), "word_length_per_key": fmt.Sprint(refDepth), "fresh_world_runs": loneRuns.Load(), "wall_s": loneWall}
 	os.RemoveAll(dirs.root)
 	run.Finish(fw.Coverage{
 		Evaluations: e.words.Load(), DistinctNontriv: e.interleaved.Load(), States: e.words.Load(), Transitions: e.steps.Load(), TracesValidated: e.steps.Load(),
